@@ -1,5 +1,5 @@
 (* Correspondence evaluator for save/read scenarios (C01, C05, C07-C11, ...). *)
-From Emd Require Import Base.Prelude Model.H5 Model.Emd Model.Reader.
+From Emd Require Import Base.Prelude Model.H5 Model.Emd Model.EmdList Model.Reader.
 
 Fixpoint rnode_eqb (a b : rnode) : bool :=
   match a, b with
@@ -27,6 +27,7 @@ Definition read_matches (m : res rres) (o : oread) : bool :=
 
 Inductive sstep :=
   | SSave (fid : nat) (tidx : nat) (tp : path) (a : wargs) (raised : bool) (after : slot)
+  | SSaveIn (fid : nat) (x : input) (a : wargs) (raised : bool) (after : slot)
   | SRead (fid : nat) (ep : option string) (tree : option bool) (o : oread)
   | SRaw (fid : nat) (s : slot).
 
@@ -35,22 +36,21 @@ Fixpoint fget (fs : files) (i : nat) : slot :=
   match fs with [] => Absent | (j, s) :: r => if Nat.eqb i j then s else fget r i end.
 Definition fset (fs : files) (i : nat) (s : slot) : files := (i, s) :: fs.
 
-(* an unrooted node is wrapped in a root named after it *)
-Definition rooted (top : rnode) (tp : path) : rnode * path :=
-  match rcls top with
-  | CRoot => (top, tp)
-  | _ => (RN CRoot (rname top +++ "_root") 0 0 [] [top], rname top :: tp)
-  end.
-
 Fixpoint run_steps (c : cfg) (tops : list rnode) (fs : files) (steps : list sstep) (i : nat) : list nat :=
   match steps with
   | [] => []
   | SRaw fid s :: rest => run_steps c tops (fset fs fid s) rest (S i)
   | SRead fid ep tr o :: rest =>
       (if read_matches (read (fget fs fid) ep tr) o then [] else [i]) ++ run_steps c tops fs rest (S i)
+  | SSaveIn fid x a raised after :: rest =>
+      let '(r, s') := write_input c (fget fs fid) tops x a in
+      let ok := match r with
+                | Ok _ => negb raised && slot_equiv s' after
+                | Err _ => raised && match s' with Raw (-1) => true | _ => slot_equiv s' after end
+                end in
+      (if ok then [] else [i]) ++ run_steps c tops (fset fs fid after) rest (S i)
   | SSave fid tidx tp a raised after :: rest =>
-      let '(root, tp') := rooted (nth tidx tops (RN CNode "?" 0 0 [] [])) tp in
-      let '(r, s') := write_node c (fget fs fid) root tp' a in
+      let '(r, s') := write_input c (fget fs fid) tops (INode tidx tp) a in
       let ok := match r with
                 | Ok _ => negb raised && slot_equiv s' after
                 | Err _ => raised && match s' with Raw (-1) => true | _ => slot_equiv s' after end
